@@ -72,8 +72,11 @@ impl StyleSheetOutput {
             );
         // likewise `<` directly followed by `!` could start a `<!--`
         let cdo_needs_separator = matches!(&*token, Token::Delim('!')) && self.s.ends_with('<');
+        // and `>` directly after `--` (the identifier `--`, or two `-`) would end a `-->`
+        let gt_needs_separator = matches!(&*token, Token::Delim('>')) && self.s.ends_with("--");
         if cdc_needs_separator
             || cdo_needs_separator
+            || gt_needs_separator
             || self
                 .prev_ser_type
                 .needs_separator_when_before(next_ser_type)
